@@ -1,46 +1,9 @@
 (* C01 — VerifyDualProof with the repair proposed in fixes/C01-targetblalh.diff: in the branch
    `sourceTxID >= TargetTxHeader.BlTxID`, when sourceTxID == TargetTxHeader.BlTxID the last leaf of
    the target's tree (TargetBlTxAlh, proven by LastInclusionProof) is position sourceTxID and must
-   therefore be the source's own Alh. Everything else is verify_dual_proof unchanged.
+   therefore be the source's own Alh. Everything else is verify_dual_proof unchanged (the one
+   transliteration verify_dual_proof_gen of Proofs/Model.v carries the repair under a flag).
    No proofs in this file. *)
 From V Require Export Proofs.Model.
 
-Section Fixed.
-Variable H : bytes -> bytes.
-
-Definition verify_dual_proof_fixed (p : option dual_proof) (src tgt : N) (salh talh : bytes) : res bool :=
-  match p with
-  | None => Ok false
-  | Some p =>
-    match dp_src p, dp_tgt p with
-    | Some sh, Some th =>
-      if negb (h_id sh =? src) || negb (h_id th =? tgt) then Ok false else
-      if (h_id sh =? 0) || (h_id th <? h_id sh) then Ok false else
-      do csalh <- alh H sh;
-      if negb (bytes_eqb salh csalh) then Ok false else
-      do ctalh <- alh H th;
-      if negb (bytes_eqb talh ctalh) then Ok false else
-      if (src <? h_bltxid th) &&
-         negb (verify_inclusion H (dp_incl p) src (h_bltxid th) (leaf_for H salh) (h_blroot th))
-      then Ok false else
-      do c <- (if 0 <? h_bltxid sh
-               then verify_consistency H (dp_cons p) (h_bltxid sh) (h_bltxid th) (h_blroot sh) (h_blroot th)
-               else Ok true);
-      if negb c then Ok false else
-      if (0 <? h_bltxid th) &&
-         negb (verify_last_inclusion H (dp_last p) (h_bltxid th) (leaf_for H (dp_tblalh p)) (h_blroot th))
-      then Ok false else
-      if src <? h_bltxid th then
-        if negb (verify_linear_proof H (dp_lin p) (h_bltxid th) tgt (dp_tblalh p) talh) then Ok false else
-        verify_linear_advance_proof H (dp_lap p) (h_bltxid sh) src salh (h_blroot th) (h_bltxid th)
-      else
-        (* the repair *)
-        if (src =? h_bltxid th) && negb (bytes_eqb (dp_tblalh p) salh) then Ok false else
-        if negb (verify_linear_proof H (dp_lin p) src tgt salh talh) then Ok false else
-        verify_linear_advance_proof H (dp_lap p) (h_bltxid sh) (h_bltxid th) (dp_tblalh p)
-                                    (h_blroot th) (h_bltxid th)
-    | _, _ => Ok false
-    end
-  end.
-
-End Fixed.
+Definition verify_dual_proof_fixed (H : bytes -> bytes) := verify_dual_proof_gen H true.
